@@ -4,4 +4,4 @@ From Coq Require Import NArith ZArith List.
 From Blue Require Import Cursor.Iface Cursor.Ref Cursor.Bounds Cursor.Spec Snap.Model.
 Require Import ExtrOcamlBasic.
 Extraction Language OCaml.
-Extraction "../ocaml/snap/gen_snap.ml" mstep minit scan_spec contents look_of find_mt open_list open_wfb open_tsb.
+Extraction "../ocaml/snap/gen_snap.ml" mstep minit scan_spec contents look_of find_mt open_list open_wfb open_tsb acc_ev.
